@@ -435,6 +435,9 @@ class GrpcWriter:
         self.failover = []           # keys held by the previous connection: re-registered first on the new one
         self.want_node = None        # set by the main thread: re-attach to this node at the next opportunity
         self.dormant = False         # set at the kill for one client of the victim: it "dies with the node" and never fails over
+        # a quiet client registers its pure-gRPC addresses once on `want_node` and then only keeps the connection open: nodes that
+        # start later learn these instances from a snapshot alone, never from an incremental batch
+        self.quiet = False
 
     def attach(self, node):
         self.gen += 1
@@ -544,6 +547,24 @@ class GrpcWriter:
             if self.g is not None:
                 self.g.stop(abrupt=True)
                 self.g = None
+            return
+        if self.quiet:
+            if self.g is not None and not ctx.conn_alive.get(self.label):
+                self.dormant = True         # its node was killed: this client dies with it
+                return
+            if self.g is None:
+                if self.gen > 0 or self.want_node is None or not ctx.up.get(self.want_node.id):
+                    return
+                self.attach(self.want_node)
+                return
+            todo = [k for k in self.keys if ctx.key_kind[k] == "grpc" and k not in self.mine and k not in getattr(self, "tried", set())]
+            if todo:
+                self.tried = getattr(self, "tried", set()) | {todo[0]}
+                tok = acquire_key(ctx, rnd, [todo[0]], race_p=1.0)
+                try:
+                    self.op(todo[0], "grpc_register", weight=1.0, enabled=True)
+                finally:
+                    release_key(ctx, tok)
             return
         # connection handling
         if self.g is not None and not ctx.conn_alive.get(self.label):
@@ -1198,6 +1219,10 @@ def run_cluster(args):
             threads.append(t)
         for i in range(plan["grpc_clients"]):
             w = GrpcWriter(ctx, i)
+            if plan["late_join"] and i == plan["grpc_clients"] - 1:
+                # learned-by-snapshot-only instances: held on a node that is up from the start (the victim unless that is the late joiner)
+                w.quiet = True
+                w.want_node = ctx.nodes[plan["victim"] - 1] if plan["victim"] in (1, 2) else ctx.nodes[rnd.choice([0, 1])]
             writers.append(w)
             threads.append(threading.Thread(target=w.loop, daemon=True))
         threads.append(threading.Thread(target=sigstop_nemesis, args=(ctx, 0), daemon=True))
